@@ -64,6 +64,15 @@ CHECKS = {
              "fastavro.reader and compared with the model; header bytes must stay frozen. The icontract invariant is auxiliary "
              "(pinpoints the first corrupting step), the verdict rests on the read-back.",
         ref="DESIGN.md §4 C07"),
+    "C10": dict(
+        cat="exploration", tech="runtime monitoring: independent conformance predicate as oracle over conforming and single-mutation data; writer-agreement observed through read-back",
+        text="validate / validate_many are called on generated data (conforming, hinted, and after one near-miss mutation of 8 kinds "
+             "at a random depth) under all strict x disable_tuple_notation x raise_errors combinations and compared with an independent "
+             "implementation of the documented Python mapping; exception class checked (ValidationError exactly in the False cases). "
+             "Agreement with writers is observed: accepted data are written and must round-trip; rejected data go to "
+             "Writer(validator=True)/json_writer(validator=True), which must raise and leave a stream holding exactly the records "
+             "accepted before (independent container parser).",
+        ref="DESIGN.md §4 C10"),
 }
 
 NOT_YET = "check not built yet in this session (see DESIGN.md §8 build order)"
